@@ -283,7 +283,7 @@ def _make_potential(h, nfields, deg):
     return pot, dexact, scale
 
 
-def h_veff(h, nfields, which, npoints):
+def h_veff(h, nfields, which, npoints, per_point_T=False):
     h.patch_numeric(HL)
     h.patch_numeric(EP)
     deg = 3
@@ -300,6 +300,15 @@ def h_veff(h, nfields, which, npoints):
 
     def full(i):
         return list(pts[i]) + [T]
+    if per_point_T and which != "derivT":
+        # the way the wall equations call the wrappers: one temperature per grid point (a profile);
+        # each point's derivative is taken at ITS temperature
+        Tarr = np.array([T] + [h.real(f"T{i}", 0.0, 50) for i in range(1, npoints)],
+                        dtype=object if h.symbolic else float)
+
+        def full(i):  # noqa: F811
+            return list(pts[i]) + [Tarr[i]]
+        T = Tarr
     if which == "derivT":
         # one temperature per field point (the way WallGo calls it); bounded below by 0
         Ts = np.array([T] + [h.real(f"T{i}", 0.0, 50) for i in range(1, npoints)],
@@ -388,7 +397,11 @@ _H_T += [dict(order=4, nvar=3, shape=(), xaxis=None, yaxis=None)]
 _V_Q = [dict(nfields=nf, which=w, npoints=np_) for nf, w, np_ in [
     (1, "derivT", 1), (2, "derivT", 2), (1, "derivField", 1), (2, "derivField", 2),
     (2, "deriv2FieldT", 1), (2, "deriv2Field2", 1), (1, "allSecond", 1), (2, "allSecond", 1)]]
-_V_T = _V_Q + [dict(nfields=3, which=w, npoints=1) for w in ("derivField", "deriv2FieldT")] + \
+_V_Q += [dict(nfields=2, which="derivField", npoints=3, per_point_T=True),
+         dict(nfields=1, which="deriv2FieldT", npoints=2, per_point_T=True)]
+_V_T = _V_Q + [dict(nfields=1, which="derivField", npoints=2, per_point_T=True),
+               dict(nfields=2, which="deriv2Field2", npoints=2, per_point_T=True),
+               dict(nfields=2, which="allSecond", npoints=2, per_point_T=True)] + [dict(nfields=3, which=w, npoints=1) for w in ("derivField", "deriv2FieldT")] + \
     [dict(nfields=2, which=w, npoints=2) for w in ("deriv2Field2", "allSecond")]
 
 HARNESSES = [
